@@ -86,12 +86,31 @@ def run(ctx):
             cfgs.append(dict(plain=plain, spans=ss, source=s, mode="unchecked", dmp=rng.random() < 0.7, pos=pos))
     ctx.exhaustive["annotate-exact: forced sources(%d) x span sets over 'abcd'" % len(forced)] = len(cfgs)
 
+    # long texts with recurring lines (the line-mode heuristics of the diff library must not be used:
+    # the diff has to stay minimal), inserted material foreign to the plain alphabet
+    lines = ["it is so ordered by the court.", "see 1 u.s. 1 at 5.", "the judgment is affirmed.", "id. at 7.", ""]
+    for _ in range(200 if th else 30):
+        plain_l = "\n".join(rng.choice(lines) for _ in range(rng.choice([6, 9, 14])))
+        src, pos = "", []
+        for ch in plain_l:
+            if rng.random() < 0.04:
+                src += rng.choice(["<I>", "</I>", "<P>", "\t", "\r"])
+            pos.append(len(src))
+            src += ch
+        if len(plain_l) < 120 or src == plain_l:
+            continue
+        sp = []
+        for _ in range(rng.choice([1, 2, 3])):
+            a = rng.randrange(len(plain_l))
+            sp.append((a, min(len(plain_l), a + rng.choice([3, 8, 20]))))
+        cfgs.append(dict(plain=plain_l, spans=sp, source=src, mode="unchecked", dmp=True, pos=pos))
+
     def mon(cf, annots, out):
         if cf["source"] is None:
             return AC.monitor_exact_plain(cf["plain"], annots, out)
         st = AC.diff_steps(cf["plain"], cf["source"], cf["dmp"])
-        if any(o == "-" for o, _ in st):
-            return None
+        if any(o == "-" for o, _ in st) and not cf["dmp"]:
+            return None     # difflib is not guaranteed minimal; counted above as an engine-assumption miss
         return AC.monitor_forced(cf["plain"], cf["source"], cf["pos"], annots, out)
 
     cases = AC.run_cases(ctx, cfgs, [("C10", mon)])
